@@ -56,27 +56,12 @@ func NewRuleExpression(actionsCache *LocalActionsCache, workflowCache *LocalReus
 func (rule *RuleExpression) VisitWorkflowPre(n *Workflow) error {
 	rule.checkString(n.Name, "")
 
+	// Collect inputs of workflow_dispatch before checking events since `inputs` context must not depend on the order
+	// of the events in "on" section
 	for _, e := range n.On {
-		switch e := e.(type) {
-		case *WebhookEvent:
-			rule.checkStrings(e.Types, "")
-			rule.checkWebhookEventFilter(e.Branches)
-			rule.checkWebhookEventFilter(e.BranchesIgnore)
-			rule.checkWebhookEventFilter(e.Tags)
-			rule.checkWebhookEventFilter(e.TagsIgnore)
-			rule.checkWebhookEventFilter(e.Paths)
-			rule.checkWebhookEventFilter(e.PathsIgnore)
-			rule.checkStrings(e.Workflows, "")
-		case *ScheduledEvent:
-			rule.checkStrings(e.Cron, "")
-		case *WorkflowDispatchEvent:
+		if e, ok := e.(*WorkflowDispatchEvent); ok {
 			ity := NewEmptyStrictObjectType()
 			for id, i := range e.Inputs {
-				rule.checkString(i.Description, "")
-				rule.checkString(i.Default, "")
-				rule.checkBool(i.Required, "")
-				rule.checkStrings(i.Options, "")
-
 				var ty ExprType
 				switch i.Type {
 				case WorkflowDispatchEventInputTypeBoolean:
@@ -91,6 +76,29 @@ func (rule *RuleExpression) VisitWorkflowPre(n *Workflow) error {
 				ity.Props[id] = ty
 			}
 			rule.dispatchInputsTy = ity
+		}
+	}
+
+	for _, e := range n.On {
+		switch e := e.(type) {
+		case *WebhookEvent:
+			rule.checkStrings(e.Types, "")
+			rule.checkWebhookEventFilter(e.Branches)
+			rule.checkWebhookEventFilter(e.BranchesIgnore)
+			rule.checkWebhookEventFilter(e.Tags)
+			rule.checkWebhookEventFilter(e.TagsIgnore)
+			rule.checkWebhookEventFilter(e.Paths)
+			rule.checkWebhookEventFilter(e.PathsIgnore)
+			rule.checkStrings(e.Workflows, "")
+		case *ScheduledEvent:
+			rule.checkStrings(e.Cron, "")
+		case *WorkflowDispatchEvent:
+			for _, i := range e.Inputs {
+				rule.checkString(i.Description, "")
+				rule.checkString(i.Default, "")
+				rule.checkBool(i.Required, "")
+				rule.checkStrings(i.Options, "")
+			}
 		case *RepositoryDispatchEvent:
 			rule.checkStrings(e.Types, "")
 		case *WorkflowCallEvent:
